@@ -34,7 +34,7 @@ def W():
 def ref_decode(ctx, frame):
     w = W()
     if H.sym(ctx):
-        return w.decode(SymSeq(frame.items, "bytes"))
+        return w.decode(SymSeq(frame.items if isinstance(frame, SymSeq) else list(frame), "bytes"))
     return w.decode(bytes(frame))
 
 
@@ -63,6 +63,31 @@ def _d3_obs(ctx, tree, ch, label="ref->lib"):
         out2 = CC.lib_decode(ctx, z)
         obs += CC.tree_obs("ref->deflate->lib", tree, out2)
     return obs
+
+
+def h_d2_after_rejected(ctx, slot, n):
+    """the frame the library writes for a well-formed stanza directly after one it had to refuse is a valid frame for the reference decoder"""
+    bad = CC.bad_stanza(ctx.choice("rejected_first", list(CC.BAD_STANZAS)))
+    tree = CC.slot_tree(ctx, slot, n)
+    from yowsup.layers.coder import YowCoderLayer
+    c = YowCoderLayer()
+    down = []
+    c.toLower = down.append
+    err = None
+    try:
+        c.send(bad)
+    except Exception as e:
+        err = e
+    n0 = len(down)
+    c.send(tree)
+    obs = [("the stanza that cannot be encoded is refused", err is not None), ("exactly one frame is written for the next stanza (%d)" % (len(down) - n0), len(down) - n0 == 1)]
+    if len(down) - n0 != 1:
+        return obs
+    try:
+        out = ref_decode(ctx, down[-1])
+    except W().FormatError as e:
+        return obs + [("reference-accepts-library-output (%s)" % e, False)]
+    return obs + CC.tree_obs("lib->ref after a rejected stanza", tree, out)
 
 
 # ---- D1 dictionary ------------------------------------------------------------------------------
@@ -108,7 +133,7 @@ def h_d2_class(ctx, cls, n):
 
 # ---- D3 ---------------------------------------------------------------------------------------------
 CHOICE_SETS = {
-    "default": {}, "list16": {"list16": True}, "literal": {"literal": True}, "unpacked": {"packed": False}, "nojid": {"jid": False},
+    "default": {}, "list16": {"list16": True}, "literal": {"literal": True}, "unpacked": {"packed": False}, "nojid": {"jid": False}, "barejid": {"bare_jid": True},
     "len20": {"len_form": 20}, "len31": {"len_form": 31}, "strcontent": {"string_content": True},
     "list16+literal": {"list16": True, "literal": True}, "literal+unpacked": {"literal": True, "packed": False},
     "nojid+unpacked": {"jid": False, "packed": False}, "list16+len31": {"list16": True, "len_form": 31},
@@ -192,7 +217,7 @@ def cases(tier):
         nmax = (3 if slot == "val" else 2) if q else (4 if slot == "val" else 3)
         for n in range(1, nmax + 1):
             cs.append(dict(name="d2-slot[%s,n=%d]" % (slot, n), fn=h_d2_slot, args=(slot, n), weight=6 ** n, timeout_s=300 if q else 3000, max_paths=400000))
-            chs = ["default", "list16", "literal", "unpacked", "nojid", "len20", "len31"]
+            chs = ["default", "list16", "literal", "unpacked", "nojid", "len20", "len31"] + (["barejid"] if slot in ("val", "jid-server") and n <= 2 else [])
             if not q:
                 chs += ["list16+literal", "literal+unpacked", "nojid+unpacked"]
             for chn in chs:
@@ -200,6 +225,8 @@ def cases(tier):
                     continue
                 cs.append(dict(name="d3-slot[%s,n=%d,%s]" % (slot, n, chn), fn=h_d3_slot, args=(slot, n, chn), weight=6 ** n,
                                timeout_s=300 if q else 3000, max_paths=400000))
+    for slot in ("val", "tag", "data"):
+        cs.append(dict(name="d2-after-rejected-stanza[%s,n=1]" % slot, fn=h_d2_after_rejected, args=(slot, 1), weight=20, timeout_s=300 if q else 3000, max_paths=400000))
     for cls in ("digits", "nibble", "hex", "HEX-only"):
         longs = (127, 128) if q else (126, 127, 128, 129, 254, 255)
         for n in ((1, 2, 3, 4) + longs if cls in ("digits", "HEX-only") else (1, 2, 3, 4)):
